@@ -4,10 +4,10 @@ set -u
 patch=$1; prop=$2; tier=${3:-quick}
 cd /repo || exit 2
 if [ -n "$(git status --porcelain)" ]; then echo "/repo not clean"; exit 2; fi
-if ! git apply --3way "$patch" 2>/tmp/trymut.err && ! git apply "$patch" 2>>/tmp/trymut.err; then echo "PATCH DOES NOT APPLY"; cat /tmp/trymut.err; git checkout -- . ; exit 3; fi
+if ! git apply --3way "$patch" 2>/tmp/trymut.err && ! git apply "$patch" 2>>/tmp/trymut.err; then echo "PATCH DOES NOT APPLY"; cat /tmp/trymut.err; git checkout -- . 2>/dev/null || git reset -q --hard HEAD; exit 3; fi
 git reset -q 2>/dev/null
 cp /verif/evidence/$prop.json /tmp/trymut-evidence-$prop.json 2>/dev/null
 cd /verif && VERIF_SEED=${VERIF_SEED:-1} ./run "$prop" "$tier" 2>&1 | grep -E "VIOLATION|KNOWN|INCONCLUSIVE|BUILD|cases" ; rc=${PIPESTATUS[0]}
-git -C /repo checkout -- . ; git -C /repo status --porcelain
+git -C /repo checkout -- . 2>/dev/null || git -C /repo reset -q --hard HEAD; git -C /repo status --porcelain
 cp /tmp/trymut-evidence-$prop.json /verif/evidence/$prop.json 2>/dev/null
 echo "rc=$rc"
